@@ -940,6 +940,94 @@ class Body:
                 dq.append(s)
         return True, None
 
+    def must_pass_edges(self, start_blocks, through, discharge_edges=(), targets=None):
+        """Like must_pass, but a path is also discharged by traversing one of discharge_edges
+        (pairs (a, s))."""
+        through = set(through)
+        discharge = set(discharge_edges)
+        targets = set(self.exits() if targets is None else targets)
+        parent = {}
+        dq = deque()
+        for s in start_blocks:
+            if s in through:
+                continue
+            parent[s] = None
+            dq.append(s)
+        while dq:
+            b = dq.popleft()
+            if b in targets:
+                path = []
+                x = b
+                while x is not None:
+                    path.append(x)
+                    x = parent[x]
+                return False, list(reversed(path))
+            for s in self.succ[b]:
+                if s in through or s in parent or (b, s) in discharge:
+                    continue
+                parent[s] = b
+                dq.append(s)
+        return True, None
+
+    def bool_edges(self, call):
+        """(true_block, false_block, switch_block) of a switch directly on the bool result of `call`."""
+        for b in range(self.n):
+            if self.is_cleanup(b):
+                continue
+            t = self.term(b)
+            if t["k"] != "switch":
+                continue
+            p = op_place(t["discr"])
+            if p is None or p[1]:
+                continue
+            neg = False
+            loc = p[0]
+            hops = 0
+            while hops < 6:
+                hops += 1
+                d = self.single_def(loc)
+                if d is None:
+                    break
+                if d[0] == "call":
+                    if d[2] is call or (d[2].block == call.block):
+                        arms = {int(v) if isinstance(v, str) else v: tb for v, tb in t["arms"]}
+                        if set(arms.keys()) == {0}:
+                            tr, fa = t["otherwise"], arms[0]
+                        elif set(arms.keys()) == {1}:
+                            tr, fa = arms[1], t["otherwise"]
+                        else:
+                            break
+                        if neg:
+                            tr, fa = fa, tr
+                        return tr, fa, b
+                    break
+                rv = d[3]
+                if rv[0] == "use" and op_place(rv[1]) is not None and not op_place(rv[1])[1]:
+                    loc = op_place(rv[1])[0]
+                    continue
+                if rv[0] == "un" and rv[1] == "Not" and op_place(rv[2]) is not None and not op_place(rv[2])[1]:
+                    neg = not neg
+                    loc = op_place(rv[2])[0]
+                    continue
+                break
+        return None
+
+    def option_edges_on_field(self, adt_suffix, field):
+        """Switches on the discriminant of an Option stored in (or borrowed from) the given field:
+        list of (switch_block, some_target, none_target)."""
+        out = []
+        for b in range(self.n):
+            if self.is_cleanup(b) or self.term(b)["k"] != "switch":
+                continue
+            si = self.switch_info(b)
+            if si["kind"] != "disc" or not (si.get("adt") or "").endswith("option::Option"):
+                continue
+            path = self.resolve(si["place"])
+            if path.has_field(adt_suffix, field):
+                ve = self.variant_edges(b)
+                out.append((b, ve.get("Some"), ve.get("None")))
+        return out
+
     def path_avoiding(self, src_succs, dst, avoid):
         """A path (list of blocks) from one of src_succs to dst avoiding `avoid`, or None."""
         avoid = set(avoid)
